@@ -260,8 +260,8 @@ UNITS = [
                 # allocations; when they are one vector, only if slot i is not among the slots already written -- which each loop proves
                 # here for its own direction (R7RS: the copy behaves as if the source were first copied to a temporary)
                 'loop_obligations': {
-                    0: 'proof { assert(rc_same(to_rc, from_rc) ==> forall|j: int| i < j < end ==> #[trigger] copy_dest(at as int, start as int, j) != i); }',
-                    1: 'proof { assert(rc_same(to_rc, from_rc) ==> forall|j: int| start <= j < i ==> #[trigger] copy_dest(at as int, start as int, j) != i); }',
+                    0: [(['C14'], 'rc_same(to_rc, from_rc) ==> forall|j: int| i < j < end ==> #[trigger] copy_dest(at as int, start as int, j) != i')],
+                    1: [(['C14'], 'rc_same(to_rc, from_rc) ==> forall|j: int| start <= j < i ==> #[trigger] copy_dest(at as int, start as int, j) != i')],
                 },
             },
             '::make_vector': {
